@@ -1,11 +1,11 @@
-(* Persist/PInvOps.v — port of Core/DInvOps.v: every level function of the persist-mode model
+(* Persist/LInvOps.v — port of Core/DInvOps.v: every level function of the persist-mode model
    preserves the invariant [DInv] and meets its specification (weakest-precondition proofs, then
    one induction on the level).  Panics that may escape: see [dallowed] (injected fault,
    uninitialised function ingredient); the backdate-violation assertion is unreachable. *)
 From Salsa Require Import Base.
 From Salsa.Kern Require Import CoreK CoreKFacts.
 From Salsa.Core Require Import Model Spec SpecProofs Inv DurSem.
-From Salsa.Persist Require Import Model PSem PWp PInv PInvSem.
+From Salsa.Persist Require Import Model PSem PWp LInv LInvSem.
 
 Section Ops.
 Variable uprog : qkey -> body.           (* the program of the persist-mode model *)
@@ -15,7 +15,7 @@ Variable rank : qkey -> nat.
 Hypothesis Hrank : calls_below prog rank.
 Variable NF : nat.
 Hypothesis Hbound : forall q, (rank q < NF)%nat.
-Variable pf : qkey -> bool.
+Variable fm : bool.
 Variable H : hist.
 Variable D : dhist.
 Variable F : ghost.
@@ -24,16 +24,16 @@ Notation tr := (tr prog NF H).
 Notation envat := (envat prog NF H).
 Notation durge := (durge prog NF H D).
 Notation clos := (clos prog NF H).
-Notation dmemo_ok := (dmemo_ok prog NF pf H D F).
-Notation DInv := (DInv prog NF pf H D F).
+Notation dmemo_ok := (dmemo_ok prog NF fm H D F).
+Notation DInv := (DInv prog NF fm H D F).
 Notation dext := (dext prog NF H D F).
-Notation sle := (fun s => PInv.sle s F).
+Notation sle := (fun s => LInv.sle s F).
 Notation obs_ok := (obs_ok prog NF H D).
-Notation good := (good prog NF pf H D).
+Notation good := (good prog NF fm H D).
 Notation dtouch_below := (dtouch_below rank).
-Notation dallowed := (PInv.dallowed).
+Notation dallowed := (LInv.dallowed).
 Notation stack_ok := (stack_ok rank).
-Notation covers := (PInvSem.covers F).
+Notation covers := (LInvSem.covers F).
 
 Ltac conj := repeat match goal with |- _ /\ _ => split end.
 
@@ -48,7 +48,6 @@ Proof.
   - intros q m' Hq _. rewrite <- Hm. exact Hq.
   - intros g w k Ho. apply (obs_ok_same prog NF H D s s'); assumption.
   - intros d c Hc. exists c. split; [|lia]. rewrite (phi_same s s' F d Hm). exact Hc.
-  - intros q m' Hq Hv. left. exists m'. rewrite <- Hm. split; [exact Hq|]. split; [reflexivity | lia].
 Qed.
 
 Lemma dtouch_of_core_eq s s' k : dcore_eq s s' -> dtouch_below s s' k.
@@ -76,7 +75,7 @@ Lemma emit_ok e s s0 (Q : unit -> db -> Prop) :
 Proof.
   intros HI He HQ. apply wp_emit.
   assert (Hce : dcore_eq s (set_log s (e :: d_log s))) by apply dcore_eq_log.
-  apply HQ; try reflexivity; [exact Hce | apply (DInv_core_eq prog NF pf H D F s); assumption |].
+  apply HQ; try reflexivity; [exact Hce | apply (DInv_core_eq prog NF fm H D F s); assumption |].
   apply dext_of_core_eq; [exact Hce | reflexivity | auto].
 Qed.
 
@@ -152,7 +151,7 @@ Proof.
     { intros s1 Hce HI1 _. pose proof (dcore_eq_cur _ _ Hce) as Hc1.
       destruct Hce as (Hr & _ & _ & Hmm).
       rewrite <- Hc1.
-      apply (shortcut_ok prog rank Hrank NF Hbound pf F H D s1 q m HI1).
+      apply (shortcut_ok prog rank Hrank NF Hbound fm F H D s1 q m HI1).
       - rewrite Hmm. exact Hm.
       - unfold lcs in *. rewrite Hr. exact Hlc. }
     pose proof (mark_verified_ok q m s s0 He0 HI Hm Hjust) as Hmv.
@@ -196,7 +195,7 @@ Lemma walk_edges_ok L n q m s0 (HM : mca_spec L n) : forall es s,
   (forall p, In p (d_stack s) -> (rank q <= rank p)%nat) ->
   wp (walk_edges L es (m_verified m))
      (fun b s' => DInv s' /\ dext s s' /\ dtouch_below s s' (rank q) /\ d_stack s' = d_stack s /\
-        (b = false -> forall e, In e es -> leaf_ok prog NF F H D s0 s' q m e)) (XP s) s.
+        (b = false -> forall e, In e es -> leaf_ok prog NF H D s0 s' q m e)) (XP s) s.
 Proof.
   induction es as [|e es IH]; intros s HI He0 Hm Hes Hst; cbn [walk_edges].
   - apply wp_ret. split; [exact HI|]. split; [apply dext_refl|]. split; [apply dtouch_refl|].
@@ -245,15 +244,12 @@ Proof.
               pose proof (ext_obs _ _ _ _ _ _ _ He01 g w k Hog) as Hog1.
               destruct (ob_obs _ _ _ _ _ _ _ _ Hog1 d md Hcl Hmd) as [A _]; [left; lia|].
               rewrite A. congruence.
-           ++ split.
-              ** intros Hcl.
-                 destruct (mo_obs _ _ _ _ _ _ _ _ _ Hok d md Hcl Hmd) as [_ Hdd]; [left; exact Hcd|].
-                 split.
-                 --- rewrite Hcur', Hcur1, <- Hvd. eapply durge_mono; [exact Hdd|].
-                     apply (mo_durge _ _ _ _ _ _ _ _ _ Hokd).
-                 --- exists md'. split; [exact Hmd' | lia].
-              ** intros c0 Hc0. destruct (ext_mono _ _ _ _ _ _ _ He01 d c0 Hc0) as (c' & Hc' & Hle).
-                 unfold PInv.phi in Hc'. rewrite Hmd in Hc'. injection Hc' as <-. lia.
+           ++ intros Hcl.
+              destruct (mo_obs _ _ _ _ _ _ _ _ _ Hok d md Hcl Hmd) as [_ Hdd]; [left; exact Hcd|].
+              split.
+              ** rewrite Hcur', Hcur1, <- Hvd. eapply durge_mono; [exact Hdd|].
+                 apply (mo_durge _ _ _ _ _ _ _ _ _ Hokd).
+              ** exists md'. split; [exact Hmd' | lia].
         -- intros p s' Hx. eapply XP_trans; eassumption.
 Qed.
 
@@ -264,11 +260,19 @@ Definition verify_post (s0 : db) (q : qkey) (m : memo) (r : bool * memo) (s' : d
 
 Lemma deep_verify_ok L n q m s (HM : mca_spec L n) :
   (rank q <= n)%nat -> DInv s -> d_memo s q = Some m ->
+  ~ lcs s (m_dur m) <= m_verified m ->
   (forall p, In p (d_stack s) -> (rank q <= rank p)%nat) ->
   wp (deep_verify L q m) (verify_post s q m) (XP s) s.
 Proof.
-  intros Hn HI Hm Hst. unfold deep_verify.
+  intros Hn HI Hm Hnsh Hst. unfold deep_verify.
   pose proof (inv_memo _ _ _ _ _ _ _ HI q m Hm) as Hok.
+  (* the short-cut failed: in flat mode the memo's durability is LOW *)
+  assert (Hflat : m_dur m = 0 \/ forall d, In (RQ d) (tr (m_verified m) q) -> In (EQ d) (m_edges m)).
+  { destruct (mo_flat _ _ _ _ _ _ _ _ _ Hok) as [Hf | Hdir]; [|right; exact Hdir].
+    left. destruct (N.eq_dec (m_dur m) 0) as [Hz | Hnz]; [exact Hz|].
+    exfalso. apply Hnsh.
+    pose proof (inv_lowrev _ _ _ _ _ _ _ HI Hf (m_dur m)) as Hl.
+    pose proof (mo_order _ _ _ _ _ _ _ _ _ Hok). lia. }
   destruct (m_untracked m) eqn:Hu.
   - apply wp_ret. unfold verify_post; cbn [fst snd].
     split; [exact HI|]. split; [apply dext_refl|]. split; [apply dtouch_refl|].
@@ -294,8 +298,8 @@ Proof.
       { intros s2 Hce HI2 He12. pose proof (dcore_eq_cur _ _ Hce) as Hc2.
         destruct Hce as (Hr2 & Hi2 & _ & Hmm2).
         rewrite <- Hc2.
-        apply (deep_ok prog rank Hrank NF Hbound pf F H D s s2 q m HI HI2);
-          [eapply dext_trans; eassumption | exact Hm | rewrite Hmm2; exact Hm1 | exact Hu|].
+        apply (deep_ok prog rank Hrank NF Hbound fm F H D s s2 q m HI HI2);
+          [eapply dext_trans; eassumption | exact Hm | rewrite Hmm2; exact Hm1 | exact Hu | exact Hflat|].
         intros e He. specialize (Hc e He). destruct e as [i | d]; cbn in Hc |- *.
         - rewrite Hi2. exact Hc.
         - rewrite Hc2, Hmm2. exact Hc. }
@@ -331,7 +335,8 @@ Proof.
     intros m' s' Hv. apply wp_ret. unfold verify_post; cbn [fst snd].
     pose proof Hv as (A & B & C & D0 & _).
     conj; auto. discriminate.
-  - apply (deep_verify_ok L n q m s HM Hn HI Hm Hst).
+  - pose proof (shallow_cases s m) as Hsc. rewrite Hsh in Hsc.
+    apply (deep_verify_ok L n q m s HM Hn HI Hm (proj2 Hsc) Hst).
 Qed.
 
 (* ---------------------------------------------------------------- frames while running a body *)
@@ -430,7 +435,7 @@ Proof.
   - lia.
   - destruct (N.max_spec (fr_changed fr) (m_changed md)) as [[Hlt ->] | [Hge ->]].
     + right. exists (RQ d). split; [apply in_app_iff; right; left; reflexivity|].
-      cbn. exists (m_changed md). split; [unfold PInv.phi; rewrite Hmd; reflexivity | lia].
+      cbn. exists (m_changed md). split; [unfold LInv.phi; rewrite Hmd; reflexivity | lia].
     + destruct e2 as [A | (x & Hxx & Hs)]; [left; exact A | right].
       exists x. split; [apply in_app_iff; left; exact Hxx | exact Hs].
   - lia.
@@ -581,7 +586,7 @@ Lemma store_fresh_ok q s0 s2 v fr ch old :
   d_memo (store s2 q m) q = Some m.
 Proof.
   intros HI2 He Ht Hcv Hv Hold Hnv Hch m.
-  destruct (fresh_store_ok prog rank Hrank NF Hbound pf F H D s2 q fr v ch old HI2 Hcv Hv Hold Hnv Hch)
+  destruct (fresh_store_ok prog rank Hrank NF Hbound fm F H D s2 q fr v ch old HI2 Hcv Hv Hold Hnv Hch)
     as [HI3 He3].
   split; [exact HI3|]. split; [eapply dext_trans; eassumption|]. split.
   { eapply dtouch_trans with (k1 := rank q) (k2 := S (rank q));
@@ -644,8 +649,8 @@ Proof.
            destruct (changed_after (m_changed o) (fr_changed fr)) eqn:Hca.
            ++ (* the backdate-violation assertion is unreachable: stamps never decrease *)
               exfalso. apply changed_after_spec in Hca.
-              pose proof (phi_frame_lb prog NF pf F H D s2 q fr (m_changed o) HI2 Hcv') as Hlb.
-              unfold PInv.phi in Hlb. rewrite Hold2 in Hlb. specialize (Hlb eq_refl). lia.
+              pose proof (phi_frame_lb prog NF fm F H D s2 q fr (m_changed o) HI2 Hcv') as Hlb.
+              unfold LInv.phi in Hlb. rewrite Hold2 in Hlb. specialize (Hlb eq_refl). lia.
            ++ apply (Hfin (m_changed o)). right. exists o, ov. conj; auto. apply N.eqb_eq in Hbd. exact Hbd.
         -- apply (Hfin (fr_changed fr)). left; reflexivity.
       * apply (Hfin (fr_changed fr)). left; reflexivity.
@@ -688,7 +693,7 @@ Proof.
   apply wp_bind. apply claim_ok; [exact Hst|].
   set (s1 := set_stack s (q :: d_stack s)).
   assert (Hce : dcore_eq s s1) by apply dcore_eq_stack.
-  assert (HI1 : DInv s1) by (apply (DInv_core_eq prog NF pf H D F s); assumption).
+  assert (HI1 : DInv s1) by (apply (DInv_core_eq prog NF fm H D F s); assumption).
   assert (He01 : dext s s1) by apply dext_set_stack.
   assert (Hst1 : forall p, In p (d_stack s1) -> (rank q <= rank p)%nat) by (apply stacked; exact Hst).
   apply wp_bind, wp_get. change (d_memo s1 q) with (d_memo s q).
@@ -711,7 +716,7 @@ Proof.
       set (s4 := set_stack s3 (tl (d_stack s3))).
       assert (Hce4 : dcore_eq s3 s4) by apply dcore_eq_stack.
       unfold got; cbn [fst snd].
-      split; [apply (DInv_core_eq prog NF pf H D F s3); assumption|].
+      split; [apply (DInv_core_eq prog NF fm H D F s3); assumption|].
       split; [eapply dext_trans; [exact He01|]; eapply dext_trans; [exact He2|];
               eapply dext_trans; [exact He3 | apply dext_set_stack]|].
       split.
@@ -735,7 +740,7 @@ Proof.
            apply wp_bind. unfold release. apply wp_modify. apply wp_ret.
            set (s4 := set_stack s2 (tl (d_stack s2))).
            unfold got; cbn [fst snd].
-           split; [apply (DInv_core_eq prog NF pf H D F s2); [apply dcore_eq_stack | exact HI2]|].
+           split; [apply (DInv_core_eq prog NF fm H D F s2); [apply dcore_eq_stack | exact HI2]|].
            split; [eapply dext_trans; [exact He01|]; eapply dext_trans; [exact He2 | apply dext_set_stack]|].
            split.
            { eapply dtouch_trans with (k1 := 0%nat) (k2 := S (rank q));
@@ -815,7 +820,7 @@ Proof.
     set (s3 := set_lru s2 _).
     assert (Hce : dcore_eq s2 s3) by apply dcore_eq_lru.
     unfold fetch_post, memo_qres; cbn [fst snd].
-    split; [apply (DInv_core_eq prog NF pf H D F s2); assumption|].
+    split; [apply (DInv_core_eq prog NF fm H D F s2); assumption|].
     split; [eapply dext_trans; [exact B | apply dext_of_core_eq; [exact Hce | reflexivity | auto]]|].
     split.
     { eapply dtouch_trans with (k1 := S (rank q)) (k2 := 0%nat);
@@ -848,7 +853,7 @@ Proof.
   apply wp_bind. unfold init_family. apply wp_modify.
   destruct (init_step s (fst q)) as (Hce0 & He0 & Hst0 & _).
   set (s0 := set_init s (updN (d_init s) (fst q) true)) in *.
-  assert (HI0 : DInv s0) by (apply (DInv_core_eq prog NF pf H D F s); assumption).
+  assert (HI0 : DInv s0) by (apply (DInv_core_eq prog NF fm H D F s); assumption).
   eapply wp_conseq; [apply (fetch_rest_ok L n HF HM q s0 Hn HI0) | |].
   - intros p Hp. apply Hst. rewrite <- Hst0. exact Hp.
   - intros r s' (A & B & C & D0 & Hv & Hm). unfold fetch_post.
@@ -868,7 +873,7 @@ Proof.
   apply wp_bind. apply claim_ok; [exact Hst|].
   set (s1 := set_stack s (q :: d_stack s)).
   assert (Hce : dcore_eq s s1) by apply dcore_eq_stack.
-  assert (HI1 : DInv s1) by (apply (DInv_core_eq prog NF pf H D F s); assumption).
+  assert (HI1 : DInv s1) by (apply (DInv_core_eq prog NF fm H D F s); assumption).
   assert (He01 : dext s s1) by apply dext_set_stack.
   assert (Hst1 : forall p, In p (d_stack s1) -> (rank q <= rank p)%nat) by (apply stacked; exact Hst).
   apply wp_bind, wp_get. change (d_memo s1 q) with (d_memo s q).
@@ -880,7 +885,7 @@ Proof.
   { intros b s2 HI2 He2 Ht2 Hs2 Hb.
     apply wp_bind. unfold release. apply wp_modify. apply wp_ret.
     unfold mca_post.
-    split; [apply (DInv_core_eq prog NF pf H D F s2); [apply dcore_eq_stack | exact HI2]|].
+    split; [apply (DInv_core_eq prog NF fm H D F s2); [apply dcore_eq_stack | exact HI2]|].
     split; [eapply dext_trans; [exact He01|]; eapply dext_trans; [exact He2 | apply dext_set_stack]|].
     split.
     { eapply dtouch_trans with (k1 := 0%nat) (k2 := S (rank q));
